@@ -2,7 +2,7 @@
    partitura/utils/music.py.  Executable definitions only; proofs are in
    Proofs/C12.v.  The tie to the source is Gen/C12_Tab.v (T2 tabulation). *)
 From PV Require Import Lib.Base Lib.Round.
-From Coq Require Import QArith.
+From Coq Require Import QArith Ascii NArith Decimal DecimalString.
 #[local] Open Scope Z_scope.
 
 Definition steps7 : list string := ["C"; "D"; "E"; "F"; "G"; "A"; "B"]%string.
@@ -15,29 +15,119 @@ Definition base_pc (s : string) : option Z :=
 Definition ps_to_midi (step : string) (alter octave : Z) : option Z :=
   b <- base_pc step ;; Some ((octave + 1) * 12 + b + alter).
 
-(* the dummy spelling: sharps only *)
-Definition pc_spelling (pc : Z) : string * Z :=
-  match pc with
-  | 0 => ("C", 0) | 1 => ("C", 1) | 2 => ("D", 0) | 3 => ("D", 1) | 4 => ("E", 0)
-  | 5 => ("F", 0) | 6 => ("F", 1) | 7 => ("G", 0) | 8 => ("G", 1) | 9 => ("A", 0)
-  | 10 => ("A", 1) | _ => ("B", 0)
-  end%string.
+(* pitch class of a spelling (partitura.utils.music.step2pc) *)
+Definition step2pc (step : string) (alter : Z) : option Z :=
+  b <- base_pc step ;; Some ((b + alter) mod 12).
 
-Definition midi_to_ps (m : Z) : string * Z * Z :=
-  let '(s, a) := pc_spelling (m mod 12) in (s, a, m / 12 - 1).
+Definition upper_step (s : string) : string :=
+  match slookup s [("c", "C"); ("d", "D"); ("e", "E"); ("f", "F"); ("g", "G"); ("a", "A"); ("b", "B")]%string with
+  | Some u => u
+  | None => s
+  end.
 
-(* note names: step, accidentals, decimal octave *)
+(* midi_pitch_to_pitch_spelling: the ALGORITHM of the code over whatever pitch-class
+   table it uses (DUMMY_PS_BASE_CLASS, reflected into Gen/C12_Tab.tab_dummy_ps on every
+   run): spelling of the pitch class, octave m // 12 - 1, step in upper case. *)
+Definition midi_to_ps_with (tab : list (Z * (string * Z))) (m : Z) : option (string * Z * Z) :=
+  match zlookup (m mod 12) tab with
+  | Some (s, a) => Some (upper_step s, a, m / 12 - 1)
+  | None => None
+  end.
+
+(* what the algorithm needs of its table: every pitch class 0..11 has an entry (step, alter)
+   whose step letter is known and base pitch class + alter is that pitch class exactly (no
+   wrap across the octave boundary, which the octave formula could not compensate) *)
+Definition dummy_ok (tab : list (Z * (string * Z))) : bool :=
+  forallb (fun pc => match zlookup pc tab with
+                     | Some (s, a) => zopt_eqb (base_pc s) (Some (pc - a))
+                     | None => false
+                     end) (zrange 0 12).
+
+(* one table that satisfies it: sharps only *)
+Definition sharps_table : list (Z * (string * Z)) :=
+  [(0, ("c", 0)); (1, ("c", 1)); (2, ("d", 0)); (3, ("d", 1)); (4, ("e", 0)); (5, ("f", 0));
+   (6, ("f", 1)); (7, ("g", 0)); (8, ("g", 1)); (9, ("a", 0)); (10, ("a", 1)); (11, ("b", 0))]%string.
+
+(* the implementation's answer on m is right when it is a spelling that sounds m *)
+Definition sounds (m : Z) (sp : string * Z * Z) : bool :=
+  let '(s, a, o) := sp in zopt_eqb (ps_to_midi s a o) (Some m).
+
+(* ---- note names: step, accidentals, decimal octave ---- *)
 Definition alter_sign (a : Z) : string :=
   match a with
   | 0 => "" | 1 => "#" | 2 => "x" | 3 => "###"
   | -1 => "b" | -2 => "bb" | -3 => "bbb" | _ => "?"
   end%string.
 
-Definition digit (d : Z) : string :=
-  match d with 0 => "0" | 1 => "1" | 2 => "2" | 3 => "3" | 4 => "4" | 5 => "5"
-             | 6 => "6" | 7 => "7" | 8 => "8" | 9 => "9" | _ => "-1" end%string.
+Definition digits (n : N) : string := NilEmpty.string_of_uint (N.to_uint n).
+Definition print_octave (o : Z) : string :=
+  if o <? 0 then String "-" (digits (Z.to_N (- o))) else digits (Z.to_N o).
+Definition digit (d : Z) : string := print_octave d.
 
-Definition note_name (s : string) (a o : Z) : string := (s ++ alter_sign a ++ digit o)%string.
+Definition note_name (s : string) (a o : Z) : string := (s ++ alter_sign a ++ print_octave o)%string.
+
+(* value of an accidental sign, one semitone per sign: '#', 's' sharp; 'b', 'f', '-' flat;
+   'x' double sharp; 'n' natural *)
+Definition sign_char_value (c : ascii) : option Z :=
+  match c with
+  | "#" | "s" => Some 1
+  | "b" | "f" | "-" => Some (-1)
+  | "x" => Some 2
+  | "n" => Some 0
+  | _ => None
+  end%char.
+Fixpoint sign_value (s : string) : option Z :=
+  match s with
+  | EmptyString => Some 0
+  | String c r => v <- sign_char_value c ;; w <- sign_value r ;; Some (v + w)
+  end.
+
+(* the grammar [A-G][xb#]*digits of note_name_to_pitch_spelling *)
+Definition is_step_char (c : ascii) : bool :=
+  match c with "A" | "B" | "C" | "D" | "E" | "F" | "G" => true | _ => false end%char.
+Definition is_acc_char (c : ascii) : bool :=
+  match c with "x" | "b" | "#" => true | _ => false end%char.
+Fixpoint split_acc (s : string) : string * string :=
+  match s with
+  | EmptyString => (EmptyString, EmptyString)
+  | String c r => if is_acc_char c then let '(a, t) := split_acc r in (String c a, t)
+                  else (EmptyString, s)
+  end.
+(* accidental strings with a documented meaning (SIGN_TO_ALTER); any other string over
+   x, b, # may be rejected, but if it is accepted it counts one semitone per sign *)
+Definition documented_acc (a : string) : bool :=
+  existsb (String.eqb a) [""; "#"; "x"; "##"; "###"; "b"; "bb"; "bbb"]%string.
+
+Definition parse_name (n : string) : option (string * Z * Z) :=
+  match n with
+  | String c r =>
+      if is_step_char c then
+        let '(a, t) := split_acc r in
+        match t, NilEmpty.uint_of_string t, sign_value a with
+        | String _ _, Some d, Some v => Some (String c EmptyString, v, Z.of_N (N.of_uint d))
+        | _, _, _ => None
+        end
+      else None
+  | EmptyString => None
+  end.
+Definition name_documented (n : string) : bool :=
+  match n with
+  | String c r => documented_acc (fst (split_acc r))
+  | EmptyString => false
+  end.
+
+Definition ps_eqb (x y : string * Z * Z) : bool :=
+  let '(s, a, o) := x in let '(s', a', o') := y in String.eqb s s' && Z.eqb a a' && Z.eqb o o'.
+Definition psopt_eqb (x y : option (string * Z * Z)) : bool :=
+  match x, y with Some u, Some v => ps_eqb u v | None, None => true | _, _ => false end.
+
+(* implementation result r on a string n of the grammar: equal to the model's reading; a
+   rejection is tolerated only for an undocumented accidental string *)
+Definition parse_agrees (n : string) (r : option (string * Z * Z)) : bool :=
+  match r with
+  | Some _ => psopt_eqb r (parse_name n)
+  | None => negb (name_documented n) || match parse_name n with None => true | Some _ => false end
+  end.
 
 (* keys *)
 Definition major_keys : list string :=
@@ -110,6 +200,25 @@ Definition sec_to_tick (ppq mpq : Z) (t : Q) : Z :=
 Definition tick_to_sec (ppq mpq k : Z) : Q :=
   inject_Z (mpq * k) / inject_Z (1000000 * ppq).
 
+(* tuplets: Tuplet.duration_multiplier = normal/actual, rescaled when the two note types differ *)
+Definition tuplet_mult (an nn : Z) (atype ntype : string) : option Q :=
+  if String.eqb atype ntype then Some (inject_Z nn / inject_Z an)
+  else match label_dur atype, label_dur ntype with
+       | Some la, Some ln => Some (inject_Z nn / inject_Z an * ln / la)
+       | _, _ => None
+       end.
+
+(* tempo: unit=bpm means bpm * (unit in quarters) quarters per minute *)
+Definition quarter_tempo (u : string) (dots : Z) (tempo : Q) : option Q :=
+  match label_dur u with Some l => Some (tempo * dot_mult dots * l) | None => None end.
+(* exact microseconds per quarter; Tempo.microseconds_per_quarter is the nearest integer *)
+Definition mpq_exact (u : string) (dots : Z) (bpm : Q) : option Q :=
+  match quarter_tempo u dots bpm with Some qt => Some (60000000 / qt) | None => None end.
+Definition mpq_slack : Q := 1 # 1000000.
+Definition mpq_nearest (x : Z) (e : Q) : bool := Qle_bool (Qabs.Qabs (e - inject_Z x)) ((1 # 2) + mpq_slack).
+
 (* relative closeness used for float-valued table rows *)
 Definition q_close (a b : Q) : bool :=
   Qle_bool (Qabs.Qabs (a - b)) (Qabs.Qabs b * (1 # 1000000000)).
+Definition qopt_close (v e : option Q) : bool :=
+  match v, e with Some a, Some b => q_close a b | _, _ => false end.
